@@ -8,11 +8,13 @@ distances are compared squared.
 
 A *history* is any list of calls, accepted or rejected:
 legacy `LOp` = place / move / remove / get_neighbors (which builds the cache),
-experimental `EOp` = new agent / position assignment / remove.
+experimental `EOp` = new agent / position assignment / `position += v` / `agent.remove()`.
 `lrun c ops` / `erun c cap ops` is the model state after the history on a fresh space with bounds `c`
 (and initial capacity `cap`); `lspec c ops` / `espec c ops` is the property's own bookkeeping of the
-same history: the agents placed and not removed, in order, and the value last assigned to each
-(`lspecStep`, `especStep`: no cache, no array, no index maps).
+same history: the agents placed and not removed, in order, the value last assigned to each, and (experimental)
+which agent objects were removed (`lspecStep`, `especStep`: no cache, no array, no index maps).
+The experimental agent-level API is `agentGet / agentSet / agentIadd / agentRemove / agentNir / agentNn`
+(an `AttributeError` on a removed agent object, otherwise `getPos / setPos / … `: `C10_exp_agent_api`).
 -/
 namespace Mesa.Cont
 
@@ -86,11 +88,19 @@ theorem C10_legacy_cache_coherent (c : LCfg) (ops : List LOp) : LInv (lrun c ops
     growth of the array, by compaction on removal and by assignments to other agents — and an agent
     that is not in the space has no row. -/
 theorem C10_exp_positions_all_histories (c : ECfg) (cap : Nat) (ops : List EOp) :
-    (erun c cap ops).active = (espec c ops).1 ∧
-    (∀ a p, (espec c ops).2 a = some p → getPos (erun c cap ops) a = .ok p) ∧
-    (∀ a, a ∉ (espec c ops).1 → getPos (erun c cap ops) a = .error .key) := by
+    (erun c cap ops).active = (espec c ops).members ∧
+    (∀ a p, (espec c ops).pos a = some p →
+      agentGet (erun c cap ops) a = .ok p ∧ getPos (erun c cap ops) a = .ok p) ∧
+    (∀ a, a ∉ (espec c ops).members →
+      agentGet (erun c cap ops) a = .error (if (espec c ops).removed a then .attr else .key) ∧
+      getPos (erun c cap ops) a = .error .key) := by
   have h := erun_refines c cap ops
-  exact ⟨h.active, h.pos, fun a ha => getPos_of_not_mem h.inv (by rw [h.active]; exact ha)⟩
+  refine ⟨h.active, fun a p hp => ?_, fun a ha => ?_⟩
+  · have hm : a ∈ (erun c cap ops).active := by
+      rw [h.active]; exact Classical.byContradiction fun hn => by rw [h.out a hn] at hp; cases hp
+    exact ⟨by rw [agentGet_of_mem h.inv hm]; exact h.pos a p hp, h.pos a p hp⟩
+  · have hn : a ∉ (erun c cap ops).active := by rw [h.active]; exact ha
+    exact ⟨by rw [agentGet_of_not_mem h.inv hn, h.gone], getPos_of_not_mem h.inv hn⟩
 
 /-- Experimental frame: a call about another agent (creation — with or without growth of the array —,
     assignment, removal with compaction) does not change what agent `a` reads back. -/
@@ -110,12 +120,12 @@ theorem C10_exp_index_maps_consistent (c : ECfg) (cap : Nat) (ops : List EOp) :
   let h := (erun_refines c cap ops).inv
   ⟨h.len, h.cap, h.nodup, h.idx⟩
 
-/-- Experimental: every assigned position lies inside the bounds. -/
+/-- Experimental: every assigned position (by the setter or by `+=`) lies inside the bounds. -/
 theorem C10_exp_positions_inside (c : ECfg) (hw : c.WF) (ops : List EOp) :
-    ∀ a p, (espec c ops).2 a = some p → inBounds c.dims p = true := by
-  suffices H : ∀ (ops : List EOp) (st : List Aid × (Aid → Option Pos)),
-      (∀ a p, st.2 a = some p → inBounds c.dims p = true) →
-      ∀ a p, (ops.foldl (especStep c) st).2 a = some p → inBounds c.dims p = true from
+    ∀ a p, (espec c ops).pos a = some p → inBounds c.dims p = true := by
+  suffices H : ∀ (ops : List EOp) (st : ESpec),
+      (∀ a p, st.pos a = some p → inBounds c.dims p = true) →
+      ∀ a p, (ops.foldl (especStep c) st).pos a = some p → inBounds c.dims p = true from
     H ops _ (by simp)
   intro ops
   induction ops with
@@ -123,6 +133,18 @@ theorem C10_exp_positions_inside (c : ECfg) (hw : c.WF) (ops : List EOp) :
   | cons op ops ih =>
     intro st h
     apply ih
+    have hassign : ∀ (a : Aid) (p : Pos) (b : Aid) (q : Pos),
+        (match eassign c p with
+          | some p' => ({ st with pos := upd st.pos a (some p') } : ESpec)
+          | none => st).pos b = some q → inBounds c.dims q = true := by
+      intro a p b q hb
+      split at hb
+      · rename_i p' hp
+        by_cases hba : b = a
+        · simp only [upd, hba, if_true, Option.some.injEq] at hb; subst hb
+          exact eassign_inBounds c hw hp
+        · simp only [upd, hba, if_false] at hb; exact h b q hb
+      · exact h b q hb
     cases op with
     | new a =>
       simp only [especStep]; split
@@ -133,14 +155,7 @@ theorem C10_exp_positions_inside (c : ECfg) (hw : c.WF) (ops : List EOp) :
         · simp only [upd, hba, if_false] at hb; exact h b q hb
     | set a p =>
       simp only [especStep]; split
-      · split
-        · rename_i p' hp
-          intro b q hb
-          by_cases hba : b = a
-          · simp only [upd, hba, if_true, Option.some.injEq] at hb; subst hb
-            exact eassign_inBounds c hw hp
-          · simp only [upd, hba, if_false] at hb; exact h b q hb
-        · exact h
+      · exact hassign a p
       · exact h
     | remove a =>
       simp only [especStep]; split
@@ -148,6 +163,12 @@ theorem C10_exp_positions_inside (c : ECfg) (hw : c.WF) (ops : List EOp) :
         by_cases hba : b = a
         · simp [upd, hba] at hb
         · simp only [upd, hba, if_false] at hb; exact h b q hb
+      · exact h
+    | iadd a v =>
+      simp only [especStep]; split
+      · split
+        · rename_i q _; exact hassign a (vadd q v)
+        · exact h
       · exact h
 
 /-! ## calls the property allows never raise -/
@@ -175,30 +196,128 @@ theorem C10_legacy_valid_calls_succeed (c : LCfg) (ops : List LOp) (a : Aid) (p 
     exact ⟨_, by simp only [remove, this]; rfl⟩
 
 /-- Experimental, every history and every initial capacity: a call the property allows never raises —
-    an agent of the space can be assigned every position the assignment rule accepts (whatever the
-    capacity was: the array has grown), is rejected with `ValueError` otherwise, and can be removed. -/
+    an agent of the space can be assigned (`agent.position = p`) every position the assignment rule accepts
+    (whatever the capacity was: the array has grown) and reads it back, is rejected with `ValueError` otherwise,
+    and can be removed. -/
 theorem C10_exp_valid_calls_succeed (c : ECfg) (cap : Nat) (ops : List EOp) (a : Aid) (p : Pos) :
     let s := erun c cap ops
     a ∈ s.active →
-    (∀ p', eassign c p = some p' → ∃ s', setPos s a p = .ok s' ∧ getPos s' a = .ok p') ∧
-    (eassign c p = none → setPos s a p = .error .oob) ∧
-    (∃ s', removeAgent s a = .ok s') := by
+    (∀ p', eassign c p = some p' → ∃ s', agentSet s a p = .ok s' ∧ agentGet s' a = .ok p') ∧
+    (eassign c p = none → agentSet s a p = .error .oob) ∧
+    (∃ s', agentRemove s a = .ok s') := by
   dsimp only
   intro ha
   have h := erun_refines c cap ops
+  rw [agentSet_of_mem h.inv ha]
   refine ⟨fun p' hp => ?_, fun hp => ?_, ?_⟩
   · rcases setPos_spec h.inv a p with ⟨hn, _⟩ | ⟨_, hr, _⟩ | ⟨q, i, _, hr, hidx, he⟩
     · exact absurd ha hn
     · rw [h.cfg, hp] at hr; cases hr
     · rw [h.cfg, hp] at hr; cases hr
-      exact ⟨_, he, by rw [getPos_set h.inv hidx]; simp⟩
+      refine ⟨_, he, ?_⟩
+      rw [agentGet_of_mem (einv_set h.inv i p') (by exact ha), getPos_set h.inv hidx]; simp
   · rcases setPos_spec h.inv a p with ⟨hn, _⟩ | ⟨_, _, he⟩ | ⟨q, i, _, hr, _, _⟩
     · exact absurd ha hn
     · exact he
     · rw [h.cfg, hp] at hr; cases hr
   · obtain ⟨i, hi⟩ := (h.inv.mem_iff a).mp ha
-    obtain ⟨s', h1, _⟩ := removeAgent_spec h.inv hi
+    obtain ⟨s', h1, _⟩ := agentRemove_spec h.inv hi
     exact ⟨s', h1⟩
+
+/-- Experimental, every history: `agent.position += v` is the assignment of (current position) + v — the sum is
+    validated / wrapped by the assignment rule before anything is written (after repair CS2: the getter hands
+    out a copy, so `+=` cannot write into the array behind the setter's back).  A rejected `+=` leaves the
+    space as it was. -/
+theorem C10_exp_iadd_is_assignment (c : ECfg) (cap : Nat) (ops : List EOp) (a : Aid) (q v : Pos) :
+    let s := erun c cap ops
+    a ∈ s.active → agentGet s a = .ok q →
+    agentIadd s a v = agentSet s a (vadd q v) ∧
+    (∀ p', eassign c (vadd q v) = some p' → ∃ s', agentIadd s a v = .ok s' ∧ agentGet s' a = .ok p') ∧
+    (eassign c (vadd q v) = none → agentIadd s a v = .error .oob ∧ estep s (.iadd a v) = s) := by
+  dsimp only
+  intro ha hq
+  have hv := C10_exp_valid_calls_succeed c cap ops a (vadd q v) ha
+  have e : agentIadd (erun c cap ops) a v = agentSet (erun c cap ops) a (vadd q v) := by
+    simp only [agentIadd, hq]
+  refine ⟨e, fun p' hp => ?_, fun hp => ?_⟩
+  · rw [e]; exact hv.1 p' hp
+  · have := hv.2.1 hp
+    exact ⟨by rw [e]; exact this, by simp only [estep, e, this]⟩
+
+/-- Experimental life cycle, every history: an agent object whose `remove()` was executed is out of the space
+    for good — it is not in `space.agents`, no query returns it (`C10_exp_radius_exact`, … range over
+    `space.agents`), and every method of the agent object (`position`, `position = …`, `position += …`,
+    `remove()` again, both neighbour queries) raises `AttributeError` and changes nothing; through the space-level
+    API (`agents=[a]`) it is a `KeyError`. -/
+theorem C10_exp_removed_agent_is_dead (argpart : List Int → Nat → List Nat) (c : ECfg) (cap : Nat)
+    (ops : List EOp) (a : Aid) :
+    let s := erun c cap ops
+    (espec c ops).removed a = true →
+    a ∉ s.active ∧
+    agentGet s a = .error .attr ∧ (∀ p, agentSet s a p = .error .attr) ∧ (∀ v, agentIadd s a v = .error .attr) ∧
+    agentRemove s a = .error .attr ∧ (∀ r, agentNir s a r = .error .attr) ∧
+    (∀ k, agentNn argpart s a k = .error .attr) ∧ (∀ j, agentPoke s a j = .error .attr) ∧
+    (∀ pt, distancesOf s pt (some [a]) = .error .key) ∧
+    (∀ op : EOp, op.target = a → estep s op = s) := by
+  dsimp only
+  intro hr
+  have h := erun_refines c cap ops
+  have hg : (erun c cap ops).gone a = true := by rw [h.gone]; exact hr
+  have hn : (erun c cap ops).a2i a = none := h.inv.gone a hg
+  have hget : agentGet (erun c cap ops) a = .error .attr := by simp [agentGet, hg]
+  refine ⟨(h.inv.not_mem_iff a).mpr hn, hget, fun p => by simp [agentSet, hg],
+    fun v => by simp [agentIadd, hget], by simp [agentRemove, hg], fun r => by simp [agentNir, hg],
+    fun k => by simp [agentNn, hg], fun j => by simp [agentPoke, hget],
+    fun pt => by simp [distancesOf, rowsOf, collect, hn, Except.map], ?_⟩
+  intro op ht
+  cases op with
+  | new b => simp only [EOp.target] at ht; subst ht; simp [estep, hg]
+  | set b p => simp only [EOp.target] at ht; subst ht; simp [estep, agentSet, hg]
+  | remove b => simp only [EOp.target] at ht; subst ht; simp [estep, agentRemove, hg]
+  | iadd b v => simp only [EOp.target] at ht; subst ht; simp [estep, agentIadd, hget]
+
+/-- … and removal is what kills it: on an agent of the space `remove()` succeeds, takes exactly that agent out of
+    `space.agents`, marks the object removed, and no other agent's position changes. -/
+theorem C10_exp_remove_lifecycle (c : ECfg) (cap : Nat) (ops : List EOp) (a : Aid) :
+    let s := erun c cap ops
+    a ∈ s.active →
+    (espec c ops).removed a = false ∧
+    ∃ s', agentRemove s a = .ok s' ∧ s' = erun c cap (ops ++ [.remove a]) ∧
+      s'.active = s.active.filter (fun b => b ≠ a) ∧ (espec c (ops ++ [.remove a])).removed a = true ∧
+      ∀ b, b ≠ a → agentGet s' b = agentGet s b := by
+  dsimp only
+  intro ha
+  have h := erun_refines c cap ops
+  have h' := erun_refines c cap (ops ++ [.remove a])
+  obtain ⟨i, hi⟩ := (h.inv.mem_iff a).mp ha
+  obtain ⟨s', h1, _, _, _, _, _, h6, _, h8⟩ := agentRemove_spec h.inv hi
+  have hrun : erun c cap (ops ++ [.remove a]) = s' := by
+    simp only [erun, List.foldl_append, List.foldl_cons, List.foldl_nil, estep]
+    show (match agentRemove (erun c cap ops) a with | .ok s' => s' | .error _ => erun c cap ops) = s'
+    rw [h1]
+  have hmem : a ∈ (espec c ops).members := by rw [← h.active]; exact ha
+  have hspec : espec c (ops ++ [.remove a]) = especStep c (espec c ops) (.remove a) := by
+    simp only [espec, List.foldl_append, List.foldl_cons, List.foldl_nil]
+  refine ⟨by rw [← h.gone]; exact h.inv.not_gone hi, s', h1, hrun.symm, ?_, ?_, ?_⟩
+  · rw [← hrun, h'.active, hspec, h.active]; simp [especStep, hmem]
+  · rw [hspec]; simp [especStep, hmem, upd]
+  · intro b hba
+    simp only [agentGet, h6, upd, hba, if_false]
+    rw [h8 b hba]
+
+/-- The agent-level API on an agent of the space is the space-level function the other theorems talk about. -/
+theorem C10_exp_agent_api (argpart : List Int → Nat → List Nat) (c : ECfg) (cap : Nat) (ops : List EOp) (a : Aid) :
+    let s := erun c cap ops
+    a ∈ s.active →
+    agentGet s a = getPos s a ∧ (∀ p, agentSet s a p = setPos s a p) ∧
+    (∀ r, agentNir s a r = neighborsInRadius s a r) ∧ (∀ k, agentNn argpart s a k = nearestNeighbors argpart s a k) := by
+  dsimp only
+  intro ha
+  have h := erun_refines c cap ops
+  obtain ⟨i, hi⟩ := (h.inv.mem_iff a).mp ha
+  have hg := h.inv.not_gone hi
+  exact ⟨by simp [agentGet, hg], fun p => by simp [agentSet, hg], fun r => by simp [agentNir, hg],
+    fun k => by simp [agentNn, hg]⟩
 
 /-! ## radius queries -/
 
@@ -488,7 +607,7 @@ example : exE.WF := by
 example : (erun exE 0 exEOps).active = [2, 3, 4] := by decide
 example : ((erun exE 0 exEOps).n, (erun exE 0 exEOps).cap) = (3, 3) := by decide
 example : getPos (erun exE 0 exEOps) 3 = .ok [10, 10, 10] := by rfl
-example : (espec exE exEOps).2 3 = some [10, 10, 10] := by decide
+example : (espec exE exEOps).pos 3 = some [10, 10, 10] := by decide
 example : agentsInRadius (erun exE 0 exEOps) [0, 0, 0] 65 = [(3, 300), (4, 4101)] := by decide
 /-- one admissible `argpartition` answer for the three distances `[24576, 300, 4101]` and `kth = 1` -/
 example : kNearest (fun _ _ => [1, 2, 0]) (erun exE 0 exEOps) [0, 0, 0] 2 = .ok [(3, 300), (4, 4101)] := by
